@@ -278,7 +278,7 @@ pub fn family(name: &str) -> Family {
         "C03" => Family { name: "C03", modify: true, toggles: true, ..base },
         "C04" => Family { name: "C04", modify: true, toggles: true, redundant: true, reload: true, ..base },
         "C05" => Family { name: "C05", ties: true, modify: true, reload: true, ..base },
-        "C06" => Family { name: "C06", modify: true, ..base },
+        "C06" => Family { name: "C06", modify: true, toggles: true, ..base },
         "C07" => Family { name: "C07", modify: true, toggles: true, reload: true, ..base },
         "C12" => Family { name: "C12", modify: true, offgrid: true, ..base },
         "C13" => Family { name: "C13", modify: true, toggles: true, ..base },
